@@ -3,7 +3,7 @@
 use crate::run::{CaseResult, Ctx, Gen, Obs};
 use crate::util::Src;
 
-pub const RULE: &str = "Configurations `arbitrary` and all-features+`arbitrary`. Inputs of length 0..=4096: all-zero, all-0xFF and every single-byte-repeated pattern (256 patterns x a ladder of lengths; thorough: every length), and proptest byte strings assembled from a weighted mix of uniform bytes, ASCII, well-formed 2/3/4-byte UTF-8 sequences and ill-formed pieces (lone continuation bytes, truncated leads, overlongs, surrogates, 0xF8..0xFF), with length-prefix-like words biased towards capacities. Each input is fed to <ctap1::Request>, <ctap2::Request> and <authenticator::Request as Arbitrary>::arbitrary. Oracle: no panic/abort; Err is NotEnoughData; Ok(req): a harness-side walker visits every public field - every String<N> and &str passes core::str::from_utf8 on its raw bytes, every String/Bytes/Vec is within its capacity, known formats <= 2, filtered parameters <= 2 with alg in {-7,-8}; Debug-formatting, clone and == clone complete and agree; dispatching through the C10 recording mock returns. Non-trivial: an Ok result whose input contained a non-ASCII byte (the unchecked UTF-8 path may have been taken) or which holds a bounded field at capacity; distinct by (entry point, input).";
+pub const RULE: &str = "Configurations `arbitrary` and all-features+`arbitrary`. Inputs of length 0..=4096: all-zero, all-0xFF and every single-byte-repeated pattern (256 patterns x a ladder of lengths; thorough: every length), and proptest byte strings assembled from a weighted mix of uniform bytes, ASCII, well-formed 2/3/4-byte UTF-8 sequences and ill-formed pieces (lone continuation bytes, truncated leads, overlongs, surrogates, 0xF8..0xFF), with length-prefix-like words biased towards capacities. plus layout-aware inputs that follow the order in which the hand-written Arbitrary impls consume data (variant selector, 8-byte little-endian length, text window, lengths of borrowed strings at the end of the input) with the declared length at capacity-3..capacity+7 and the window end before, inside or after a multi-byte character whose remaining bytes follow. Each input is fed to <ctap1::Request>, <ctap2::Request> and <authenticator::Request as Arbitrary>::arbitrary. Oracle: no panic/abort; Err is NotEnoughData; Ok(req): a harness-side walker visits every public field - every String<N> and &str passes core::str::from_utf8 on its raw bytes, every String/Bytes/Vec is within its capacity, known formats <= 2, filtered parameters <= 2 with alg in {-7,-8}; Debug-formatting, clone and == clone complete and agree; dispatching through the C10 recording mock returns. Non-trivial: an Ok result whose input contained a non-ASCII byte (the unchecked UTF-8 path may have been taken) or which holds a bounded field at capacity; distinct by (entry point, input).";
 pub const ASSUMPTIONS: &[&str] = &[
     "VendorOperation's derived Arbitrary can yield codes outside 0x40..0x7F; the statement's validity list does not include the vendor range, so it is recorded, not asserted",
     "an invalid str that happens not to crash is only visible to from_utf8 on the raw bytes (and to Miri in the thorough tier)",
@@ -378,6 +378,174 @@ mod with_arb {
         check_bytes(entry, &data, obs)
     }
 
+    /// A text window for `arbitrary_str::<CAP>`: returns (declared length, bytes that follow).
+    /// The declared length sits near the capacity and the window end falls before, inside or
+    /// after a multi-byte character whose remaining bytes follow the window.
+    fn text_window(src: &mut Src, cap: usize) -> (u64, Vec<u8>, &'static str) {
+        let n: usize = match src.below(10) {
+            0 => cap,
+            1 => cap - 1,
+            2 => cap - 2,
+            3 => cap - 3,
+            4 => cap + 1,
+            5 => cap + 7,
+            6 => 0,
+            7 => src.range(1, cap),
+            8 => cap / 2,
+            _ => cap,
+        };
+        let chars: [&str; 6] = ["\u{e9}", "\u{20ac}", "\u{1f600}", "\u{10ffff}", "\u{800}", "\u{80}"];
+        let c = chars[src.below(chars.len())].as_bytes();
+        let window = n.min(cap);
+        // the character starts k bytes before the end of the window (k = 0: right after it)
+        let k = src.below(c.len() + 2);
+        let start = window.saturating_sub(k);
+        let mut bytes: Vec<u8> = (0..start).map(|i| b'a' + (i % 26) as u8).collect();
+        let label = match src.below(6) {
+            0 => {
+                // ill-formed: a lone continuation / invalid byte instead of the character
+                bytes.push(*src.pick(&[0x80u8, 0xBF, 0xC0, 0xF8, 0xFF]));
+                "window:ill-formed-byte"
+            }
+            1 => {
+                // the character is cut by the end of the data that follows (never completed)
+                bytes.extend_from_slice(&c[..c.len() - 1]);
+                bytes.extend_from_slice(b"zz");
+                "window:char-never-completed"
+            }
+            _ => {
+                bytes.extend_from_slice(c);
+                if k > 0 && k < c.len() {
+                    "window:cuts-a-character"
+                } else {
+                    "window:on-a-boundary"
+                }
+            }
+        };
+        let extra = src.range(0, 6);
+        for i in 0..extra {
+            bytes.push(b'A' + i as u8);
+        }
+        // the bytes the generator will consume are at most `window`; what follows is read by later fields
+        let declared = if src.chance(1, 8) { u64::MAX - src.below(3) as u64 } else { n as u64 };
+        (declared, bytes, label)
+    }
+
+    /// Inputs laid out the way the hand-written Arbitrary impls consume them (variant selector,
+    /// then per text field an 8-byte little-endian length followed by the window), so that the
+    /// clamping and the valid-prefix logic are exercised at their boundaries.
+    /// words: [entry (1 = ctap2, 2 = combined), request kind, ...]
+    fn g_layout(src: &mut Src, obs: &mut Obs) -> CaseResult {
+        let entry = 1 + src.below(2);
+        let kind = src.below(4);
+        let mut d: Vec<u8> = vec![];
+        if entry == 2 {
+            // authenticator::Request: variant 1 of 2 = Ctap2
+            d.extend_from_slice(&0x8000_0000u32.to_le_bytes());
+        }
+        let variant = |i: u64| -> [u8; 4] { ((((i << 32) + 9) / 10) as u32).to_le_bytes() };
+        let mut labels: Vec<&'static str> = vec![];
+        let mut tail: Vec<u8> = vec![];
+        let mut put_str = |d: &mut Vec<u8>, src: &mut Src, cap: usize, labels: &mut Vec<&'static str>| {
+            let (n, bytes, l) = text_window(src, cap);
+            d.extend_from_slice(&n.to_le_bytes());
+            d.extend_from_slice(&bytes);
+            labels.push(l);
+        };
+        match kind {
+            0 | 1 => {
+                // MakeCredential (variant 0): clientDataHash (&[u8], length from the end), rp, user
+                d.extend_from_slice(&variant(0));
+                let cdh = src.range(0, 40);
+                d.extend(src.bytes(cdh));
+                put_str(&mut d, src, 256, &mut labels); // rp.id
+                let name = src.bool();
+                d.push(name as u8);
+                if name {
+                    put_str(&mut d, src, 64, &mut labels);
+                }
+                d.push(src.bool() as u8); // rp.icon placeholder
+                let idn = src.range(0, 70) as u64;
+                d.extend_from_slice(&idn.to_le_bytes()); // user.id (Bytes<64>)
+                d.extend(src.bytes(idn.min(64) as usize));
+                for cap in [128usize, 64, 64] {
+                    let p = src.bool();
+                    d.push(p as u8);
+                    if p {
+                        put_str(&mut d, src, cap, &mut labels);
+                    }
+                }
+                tail = (cdh as u16).to_be_bytes().to_vec();
+                obs.label("layout:make_credential");
+            }
+            2 => {
+                // GetAssertion (variant 1): rp_id (&str, length from the end), clientDataHash (&[u8])
+                d.extend_from_slice(&variant(1));
+                let total = *src.pick(&[250usize, 254, 255, 256, 257, 258, 260, 300, 600]);
+                let chars: [&str; 4] = ["\u{e9}", "\u{20ac}", "\u{1f600}", "\u{10ffff}"];
+                let c = chars[src.below(4)].as_bytes();
+                // a multi-byte character ending at or straddling offset 256
+                let start = 256usize.saturating_sub(src.below(c.len() + 1));
+                let mut rp: Vec<u8> = (0..start.min(total)).map(|i| b'a' + (i % 26) as u8).collect();
+                if rp.len() + c.len() <= total {
+                    rp.extend_from_slice(c);
+                }
+                while rp.len() < total {
+                    rp.push(b'q');
+                }
+                let l = rp.len();
+                d.extend_from_slice(&rp);
+                let cdh = src.range(0, 40);
+                d.extend(src.bytes(cdh));
+                tail = (cdh as u16).to_be_bytes().to_vec();
+                tail.extend_from_slice(&(l as u16).to_be_bytes());
+                labels.push("window:borrowed-rp-id");
+                obs.label("layout:get_assertion");
+            }
+            _ => {
+                // CredentialManagement (variant 6) with sub-command parameters: rpIdHash (32 bytes),
+                // descriptor (&[u8] + &str from the end), user entity
+                d.extend_from_slice(&variant(6));
+                d.extend_from_slice(&variant(src.below(7) as u64 % 7)); // sub-command (7 variants -> scale differs; any value is fine)
+                d.push(1); // sub_command_params = Some
+                let with_hash = src.bool();
+                d.push(with_hash as u8);
+                if with_hash {
+                    let n = if src.chance(1, 4) { src.range(0, 31) } else { 32 };
+                    d.extend(src.bytes(n));
+                    if n < 32 {
+                        obs.label("window:short-rp-id-hash");
+                        let fail_here = check_bytes(entry, &d, obs);
+                        obs.label("layout:credential_management");
+                        return fail_here;
+                    }
+                }
+                d.push(0); // credential_id = None
+                d.push(1); // user = Some
+                let idn = src.range(0, 70) as u64;
+                d.extend_from_slice(&idn.to_le_bytes());
+                d.extend(src.bytes(idn.min(64) as usize));
+                for cap in [128usize, 64, 64] {
+                    let p = src.bool();
+                    d.push(p as u8);
+                    if p {
+                        put_str(&mut d, src, cap, &mut labels);
+                    }
+                }
+                obs.label("layout:credential_management");
+            }
+        }
+        // zeros: every later field absent / empty; then the lengths read from the end
+        d.extend(std::iter::repeat(0u8).take(300));
+        d.extend_from_slice(&tail);
+        for l in labels {
+            obs.label(l);
+        }
+        obs.sample_with(|| json!({"pattern": "layout", "len": d.len(), "head_hex": hex(&d[..d.len().min(40)])}));
+        check_bytes(entry, &d, obs)
+    }
+    pub const G_LAYOUT: Gen = Gen { name: "c19_layout", f: g_layout };
+
     fn g_concrete(src: &mut Src, obs: &mut Obs) -> CaseResult {
         let p = crate::run::unpack_bytes(src);
         obs.label("concrete");
@@ -392,7 +560,7 @@ mod with_arb {
     pub const G_CONCRETE: Gen = Gen { name: "c19_concrete", f: g_concrete };
 
     pub fn gens() -> Vec<Gen> {
-        vec![G_REPEAT, G_MIX, G_CONCRETE]
+        vec![G_REPEAT, G_MIX, G_LAYOUT, G_CONCRETE]
     }
 
     pub fn run(ctx: &mut Ctx) {
@@ -414,6 +582,13 @@ mod with_arb {
         for entry in 0..3usize {
             ctx.random(&G_MIX, &[idx(entry, 3)], ctx.t(20_000, 1_000_000), 900);
         }
+        for kind in 0..4usize {
+            for entry in 0..2usize {
+                ctx.random(&G_LAYOUT, &[idx(entry, 2), idx(kind, 4)], ctx.t(6_000, 300_000), 200);
+            }
+        }
+        ctx.require(&["layout:make_credential", "layout:get_assertion", "layout:credential_management", "window:cuts-a-character",
+            "window:on-a-boundary", "window:ill-formed-byte", "window:char-never-completed", "window:borrowed-rp-id", "window:short-rp-id-hash"]);
         ctx.require(&["entry:ctap1::Request", "entry:ctap2::Request", "entry:authenticator::Request", "result:ok", "result:not-enough-data", "pattern:repeat", "pattern:mix", "field-at-capacity"]);
     }
 }
